@@ -25,12 +25,18 @@ LOCKER = r"""
 import fcntl, os, sys
 fs = []
 for spec in sys.argv[1:]:
-    kind, rng, p = spec.split(":", 2)
+    api, kind, rng, p = spec.split(":", 3)
     f = open(p, "r+b" if kind == "w" else "rb")
     n = os.fstat(f.fileno()).st_size
     start, length = {"whole": (0, 0), "first_byte": (0, 1), "middle": (n // 2, 1), "at_eof_1": (n, 1),
                      "from_eof": (n, 0), "sentinel_1g": (1 << 30, 1)}[rng]
-    fcntl.lockf(f, (fcntl.LOCK_EX if kind == "w" else fcntl.LOCK_SH) | fcntl.LOCK_NB, length, start, 0)
+    if api == "ofd":
+        # open-file-description lock (F_OFD_SETLK = 37): owned by the open file, F_GETLK reports l_pid = -1 for it
+        import struct
+        fl = struct.pack("hhqqixxxx", fcntl.F_WRLCK if kind == "w" else fcntl.F_RDLCK, 0, start, length, 0)
+        fcntl.fcntl(f.fileno(), getattr(fcntl, "F_OFD_SETLK", 37), fl)
+    else:
+        fcntl.lockf(f, (fcntl.LOCK_EX if kind == "w" else fcntl.LOCK_SH) | fcntl.LOCK_NB, length, start, 0)
     fs.append(f)
 sys.stdout.write("ready\n"); sys.stdout.flush()
 sys.stdin.read()
@@ -38,13 +44,14 @@ sys.stdin.read()
 
 
 class Locker:
-    """a separate process holding fcntl locks: specs are (path, 'w'|'r', range name)"""
+    """a separate process holding fcntl locks: specs are (path, 'w'|'r', range name[, 'posix'|'ofd'])"""
 
     def __init__(self, specs):
         self.p = None
         specs = [(x, "w", "whole") if isinstance(x, str) else x for x in specs]
+        specs = [x if len(x) == 4 else tuple(x) + ("posix",) for x in specs]
         if specs:
-            self.p = subprocess.Popen([sys.executable, "-c", LOCKER] + ["%s:%s:%s" % (k, r, p) for p, k, r in specs],
+            self.p = subprocess.Popen([sys.executable, "-c", LOCKER] + ["%s:%s:%s:%s" % (api, k, r, p) for p, k, r, api in specs],
                                       stdin=subprocess.PIPE, stdout=subprocess.PIPE)
             line = self.p.stdout.readline()
             if line.strip() != b"ready":
@@ -69,7 +76,7 @@ def gen_scenario(rng, sid, base, n, hardlinked_victims):
     return A.Scenario(sid, base, [{"content": content, "members": members}], move_dir="out")
 
 
-def run_locked(env, scn, op, locked_rel, no_lock, groups, kind="w", rng="whole", readonly=(), drop_caps=False):
+def run_locked(env, scn, op, locked_rel, no_lock, groups, kind="w", rng="whole", readonly=(), drop_caps=False, api="posix", spec=None):
     """one run of the binary while the helper holds locks (read / write, on the named byte range) on the members
     named in locked_rel; members in `readonly` get mode 0444 and the binary is launched without CAP_DAC_OVERRIDE"""
     scn.build()
@@ -78,14 +85,15 @@ def run_locked(env, scn, op, locked_rel, no_lock, groups, kind="w", rng="whole",
     inv0 = A.inventory(scn.base)
     cmds = c05.scn_cmds(scn, op, groups, inv0)        # fake_mount => Move { use_rename: false }
     paths = [os.path.join(scn.root, r) for r in locked_rel]
-    lk = Locker([(p, kind, rng) for p in paths])
+    spec = spec or {}
+    lk = Locker([(p, kind, rng, api) for p in paths])
     try:
         r = A.run_shim(env["fclones"], env["shim"], A.cli_args(op, scn, no_lock), scn.report, scn.base, sim_ficlone=(op == "dedupe"),
-                       drop_caps=drop_caps, env_extra=scn.env_extra())
+                       drop_caps=drop_caps, env_extra=scn.env_extra(), fail=spec.get("fail"), kill=spec.get("kill"))
     finally:
         lk.close()
     c = c05.Case()
-    c.scn, c.op, c.spec, c.inv0, c.cmds, c.res, c.sim, c.sl = scn, op, {}, inv0, cmds, r, op == "dedupe", not no_lock
+    c.scn, c.op, c.spec, c.inv0, c.cmds, c.res, c.sim, c.sl = scn, op, spec, inv0, cmds, r, op == "dedupe", not no_lock
     c.inv1 = A.inventory(scn.base)
     vs = c05.victims_of(cmds)
     c.calls, c.kill = A.abstract_trace(r["trace"], vs)
@@ -100,9 +108,14 @@ def run_locked(env, scn, op, locked_rel, no_lock, groups, kind="w", rng="whole",
             qs.add(os.path.normpath(cm["tgt"]))
     c.queries = sorted(qs)
     locked_inos = [inv0[p][1] for p in paths]
-    c.line = A.model_line(c.sl, inv0, cmds, oracle, None, c.queries, locked_inos)
+    crash = None
+    if c.kill:
+        crash = "%d:%s" % (c.kill["idx"], c.kill["stage"])
+        if c.kill.get("env_fail"):
+            oracle[c.kill["idx"]] = (c.kill["env_fail"], None)
+    c.line = A.model_line(c.sl, inv0, cmds, oracle, crash, c.queries, locked_inos)
     c.extra = {"locked": list(locked_rel), "locked_paths": paths, "locked_inos": set(locked_inos), "no_lock": no_lock,
-               "lock_kind": kind, "lock_range": rng, "readonly": list(readonly), "drop_caps": drop_caps}
+               "lock_kind": kind, "lock_range": rng, "readonly": list(readonly), "drop_caps": drop_caps, "lock_api": api}
     return c
 
 
@@ -127,6 +140,17 @@ def lock_oracle(c):
     inv0, inv1 = c.inv0, {A.canon_temp(p, c05.victims_of(c.cmds)): e for p, e in c.inv1.items()}
     summ = A.log_summary(c.res["stderr"])
     refused = 0
+    killed = c.spec.get("kill") is not None
+    if killed or c.spec.get("fail"):
+        # crash / fault sweep on a locked victim: in EVERY state the locked file is at its path, same inode, same bytes
+        for cm in c.cmds:
+            a = cm["a"]
+            if inv0[a][1] in c.extra["locked_inos"] and not c.extra["no_lock"] and inv1.get(a) != inv0[a]:
+                bad.append(("locked_file_touched", "%s is locked by another process and %s it is not at its path unchanged: %r -> %r (now at: %s)"
+                            % (a, "after the process was killed at call %d" % c.spec["kill"][0] if killed else "after call %d failed (%s)" % c.spec["fail"],
+                               inv0[a], inv1.get(a), [p for p, e in inv1.items() if e[0] == "F" and e[1] == inv0[a][1]])))
+        if killed:
+            return bad
     for cm in c.cmds:
         a = cm["a"]
         is_locked = inv0[a][1] in c.extra["locked_inos"]
@@ -149,9 +173,10 @@ def lock_oracle(c):
             continue
         if is_locked and not c.extra["no_lock"]:
             refused += 1
-            if inv1.get(a) != inv0[a]:
-                bad.append(("locked_file_touched", "%s is locked by another process (%s lock, range %s) and was changed by `%s`: %r -> %r"
-                            % (a, "write" if c.extra["lock_kind"] == "w" else "read", c.extra["lock_range"], c.op, inv0[a], inv1.get(a))))
+            if inv1.get(a) != inv0[a] and not c.spec.get("fail"):
+                bad.append(("locked_file_touched", "%s is locked by another process (%s %s lock, range %s) and was changed by `%s`: %r -> %r"
+                            % (a, c.extra.get("lock_api", "posix"), "write" if c.extra["lock_kind"] == "w" else "read", c.extra["lock_range"], c.op,
+                               inv0[a], inv1.get(a))))
             if not any(A.pct(a) in l or a in l for l in summ["warn_lines"]):
                 bad.append(("locked_file_not_reported", "no warning names the locked file %s" % a))
         else:
@@ -204,15 +229,16 @@ def api_level(ctx, env, caps_ok):
     open(full, "wb").write(b"0123456789")
     open(empty, "wb").close()
     for path, label in ((full, "10-byte file"), (empty, "empty file")):
+      for api in ("posix", "ofd"):
         for kind in ("w", "r"):
             for rng in RANGES:
-                lk = Locker([(path, kind, rng)])
+                lk = Locker([(path, kind, rng, api)])
                 try:
                     got = core.run_lines(FSX, [A.pct(path)], args=["lock", "1"])[0]
                 finally:
                     lk.close()
-                ctx.bump("api_foreign_lock_range", "%s/%s/%s" % (label, "write" if kind == "w" else "read", rng))
-                checks.append(("foreign %s lock on range %s of the %s" % ("write" if kind == "w" else "read", rng, label), path, got, "err WouldBlock"))
+                ctx.bump("api_foreign_lock_range", "%s/%s/%s/%s" % (label, api, "write" if kind == "w" else "read", rng))
+                checks.append(("foreign %s %s lock on range %s of the %s" % (api, "write" if kind == "w" else "read", rng, label), path, got, "err WouldBlock"))
     # a file the user may not open for writing: the probe itself fails, the command must not proceed
     if caps_ok:
         ro = os.path.join(d, "readonly")
@@ -287,8 +313,9 @@ def run(ctx):
         subsets.append(["a/k0"])                       # the retained file is never probed
         if ctx.replay:
             rp = json.load(open(ctx.replay))
+            spec = {k: (tuple(v) if isinstance(v, list) else v) for k, v in (rp.get("fault") or {}).items()}
             return [run_locked(env, scn, op, rp["locked"], rp["no_lock"], groups, kind=rp.get("lock_kind", "w"), rng=rp.get("lock_range", "whole"),
-                               readonly=rp.get("readonly", ()), drop_caps=rp.get("drop_caps", False))]
+                               readonly=rp.get("readonly", ()), drop_caps=rp.get("drop_caps", False), api=rp.get("lock_api", "posix"), spec=spec)]
         out = []
         for sub in subsets:
             for no_lock in (False, True):
@@ -299,6 +326,20 @@ def run(ctx):
                 for rng in RANGES:
                     if (kind, rng) != ("w", "whole"):
                         out.append(run_locked(env, scn, op, ["b/v1"], False, groups, kind=kind, rng=rng))
+            # the same through OPEN-FILE-DESCRIPTION locks (F_OFD_SETLK): they conflict with fclones' F_SETLK exactly like classic ones
+            for kind in ("w", "r"):
+                for rng in ("whole", "at_eof_1", "sentinel_1g"):
+                    out.append(run_locked(env, scn, op, ["b/v1"], False, groups, kind=kind, rng=rng, api="ofd"))
+            # crash / fault sweep with the victim locked: a failure injected into, or a SIGKILL before / after, EVERY call of the run.
+            # EOPNOTSUPP is left out: maybe_lock deliberately swallows Unsupported from the probe (the excluded oracle class of
+            # C20_locked_untouched)
+            c0 = run_locked(env, scn, op, ["b/v1"], False, groups)
+            m = max([int(f[0]) for f in c0.res["trace"]] or [0])
+            for k in range(1, m + 1):
+                for e in ("EIO", "ENOSPC", "EXDEV", "EPERM"):
+                    out.append(run_locked(env, scn, op, ["b/v1"], False, groups, spec={"fail": (k, e)}))
+                for when in ("before", "after"):
+                    out.append(run_locked(env, scn, op, ["b/v1"], False, groups, spec={"kill": (k, when)}))
             # a victim the user may not open for writing (0444, DAC capabilities dropped): the probe fails, the file is left alone
             if caps_ok:
                 for locked in ([], ["b/v1"]):
@@ -322,7 +363,9 @@ def run(ctx):
         ctx.bump("no_lock_flag", c.extra["no_lock"])
         ctx.bump("hardlinked_victims", hl)
         if nl:
-            ctx.bump("foreign_lock", "%s/%s" % ("write" if c.extra["lock_kind"] == "w" else "read", c.extra["lock_range"]))
+            ctx.bump("foreign_lock", "%s/%s/%s" % (c.extra["lock_api"], "write" if c.extra["lock_kind"] == "w" else "read", c.extra["lock_range"]))
+        if c.spec:
+            ctx.bump("sweep_with_locked_victim", "kill_" + c.spec["kill"][1] if "kill" in c.spec else "fail_" + c.spec["fail"][1])
         if c.extra["readonly"]:
             ctx.bump("victim_mode_0444_without_CAP_DAC_OVERRIDE", "locked" if nl else "unlocked")
 
@@ -330,7 +373,7 @@ def run(ctx):
             d = c05.describe(c)
             d.update({"n": n, "hardlinked_victims": hl, "op": op, "locked": c.extra["locked"], "no_lock": c.extra["no_lock"],
                       "lock_kind": c.extra["lock_kind"], "lock_range": c.extra["lock_range"], "readonly": c.extra["readonly"],
-                      "drop_caps": c.extra["drop_caps"],
+                      "drop_caps": c.extra["drop_caps"], "lock_api": c.extra["lock_api"], "fault": c.spec,
                       "lock_helper": "python3 -c <fcntl.lockf(LOCK_EX|LOCK_NB) on the listed members> (vlib/props/c20.py LOCKER)"})
             return d
         for kind, text in lock_oracle(c):
@@ -342,7 +385,7 @@ def run(ctx):
         except Exception as e:
             corr.append((c, "model", str(e), payload))
             continue
-        d = A.compare_trace(c.calls, mo["trace"], False)
+        d = A.compare_trace(c.calls, mo["trace"], c.kill is not None)
         if d:
             corr.append((c, "trace", d, payload))
             continue
@@ -352,7 +395,7 @@ def run(ctx):
             corr.append((c, "state", "; ".join(ds[:4]), payload))
             continue
         summ = A.log_summary(c.res["stderr"])
-        if summ["processed"] != mo["processed"] or summ["warn"] != mo["warn"]:
+        if c.kill is None and (summ["processed"] != mo["processed"] or summ["warn"] != mo["warn"]):
             corr.append((c, "accounting", "implementation processed=%s warnings=%d; model processed=%d warnings=%d"
                          % (summ["processed"], summ["warn"], mo["processed"], mo["warn"]), payload))
             continue
